@@ -45,8 +45,27 @@ DATES = (0, 3, -2)
 
 @st.composite
 def _case(draw):
-    fam = draw(st.sampled_from(["additive", "additive_growth", "log", "log_growth", "nl", "chain"]))
-    if fam == "chain":
+    fam = draw(st.sampled_from(["additive", "additive_growth", "log", "log_growth", "nl", "chain", "pairs"]))
+    if fam == "pairs":
+        # nine variables: one on its own and four simultaneous pairs (v1,v2), (v3,v4), (v5,v6), (v7,v8), declared in a
+        # drawn order: several two-unknown blocks whose quantity numbers go beyond 7
+        c_ = lambda lo, hi: draw(st.integers(int(lo * 20), int(hi * 20))) / 20.0  # noqa: E731
+        nz = lambda lo, hi: (lambda v: v if abs(v) >= 0.1 else 0.3)(c_(lo, hi))  # noqa: E731
+        eqs = [{"terms": [[0, -1, c_(-0.5, 0.5)]], "const": nz(-1, 1), "shock": 1.0}]
+        for a_ in (1, 3, 5, 7):
+            b_ = a_ + 1
+            eqs.append({"terms": [[b_, 0, nz(-0.6, 0.6)], [a_, -1, c_(-0.4, 0.4)]], "const": nz(-1, 1), "shock": 1.0})
+            eqs.append({"terms": [[a_, 0, nz(-0.6, 0.6)]], "const": nz(-1, 1), "shock": 0.0})
+        n_ = len(eqs)
+        order_ = list(draw(st.permutations(list(range(n_)))))
+        names_ = [None] * n_
+        for pos, i in enumerate(order_):
+            names_[i] = f"v{pos}"             # the name number is the declaration position
+        spec = {"n": n_, "names": names_, "eqs": eqs, "meas": [], "params": [], "log": False,
+                "render": {"norm": [0] * n_, "order": draw(st.integers(0, 3))}}
+        spec["nl"] = [[0, 0, 0, draw(st.sampled_from([0.1, -0.1, 0.2])), draw(st.sampled_from(sorted(lm.NL_KINDS)))]]
+        spec["eq_order"] = list(draw(st.permutations(list(range(n_)))))
+    elif fam == "chain":
         # a simultaneous core (x0 <-> x1) followed by a chain of definitions x2 = f(x0), x3 = g(x2), x4 = h(x3):
         # the block ordering matters for every link of the chain
         c_ = lambda lo, hi: draw(st.integers(int(lo * 20), int(hi * 20))) / 20.0  # noqa: E731
@@ -84,7 +103,7 @@ def _case(draw):
     plan = "none"
     if rw is not None and draw(st.booleans()):
         # fix the level of the trending variable, or fix its growth and back out the drift (a parameter then)
-        plan = draw(st.sampled_from(["fix_level", "fix_level", "fix_change"])) if nv == 1 else "fix_level"
+        plan = draw(st.sampled_from(["fix_level", "fix_level", "fix_change", "fix_both"])) if nv == 1 else "fix_level"
     elif spec["params"] and nv == 1 and fam in ("log", "nl", "additive") and draw(st.booleans()):
         plan = "swap"
     pert = [draw(st.floats(-0.2, 0.2, allow_nan=False).map(lambda x: round(x, 3))) for _ in range(n)]
@@ -187,7 +206,7 @@ def _check(case):
     col = Collector()
     spec = case["spec"]
     fam, rw, nv = case["family"], case["rw"], case["nv"]
-    if case["plan"] == "fix_change":
+    if case["plan"] in ("fix_change", "fix_both"):
         spec = copy.deepcopy(spec)
         spec["eqs"][rw]["const_param"] = "gdrift"
     for v in range(nv):
@@ -207,7 +226,7 @@ def _check(case):
     if nv > 1:
         api("alter_num_variants", m.alter_num_variants, nv)
     api("assign_parameters", lambda: m.assign(**{p["name"]: p["value"] for p in spec["params"]}))
-    if case["plan"] == "fix_change":
+    if case["plan"] in ("fix_change", "fix_both"):
         api("assign_drift", lambda: m.assign(gdrift=spec["eqs"][rw]["const"]))
     f = math.exp if spec["log"] else float
     # starting guesses: known steady state perturbed (stationary families); neutral values for growth families
@@ -238,14 +257,20 @@ def _check(case):
         plan = ir.SteadyPlan(m)
         api("plan:fix_level", plan.fix_level, nm)
         fixed[nm] = val
-    elif case["plan"] == "fix_change":
+    elif case["plan"] in ("fix_change", "fix_both"):
         # the growth of the trending variable is fixed at another value than its drift; the drift is endogenized
+        # (fix_both: plan.fix(), which fixes the level as well)
         nm = spec["names"][rw]
         want_drift = spec["eqs"][rw]["const"] + case["target_shift"]
         fixed_change = math.exp(want_drift) if spec["log"] else want_drift
-        api("assign_fixed_change", lambda: m.assign(**{nm: ((guess[nm] if not isinstance(guess[nm], list) else guess[nm][0]), fixed_change)}))
+        level_ = case["fixed_value"] if case["plan"] == "fix_both" else (guess[nm] if not isinstance(guess[nm], list) else guess[nm][0])
+        api("assign_fixed_change", lambda: m.assign(**{nm: (level_, fixed_change)}))
         plan = ir.SteadyPlan(m)
-        api("plan:fix_change", plan.fix_change, nm)
+        if case["plan"] == "fix_both":
+            api("plan:fix", plan.fix, nm)
+            fixed[nm] = level_
+        else:
+            api("plan:fix_change", plan.fix_change, nm)
         api("plan:endogenize", plan.endogenize, "gdrift")
         fixed_changes[nm] = fixed_change
     elif case["plan"] == "swap":
@@ -290,7 +315,7 @@ def _check(case):
     names = spec["names"] + lm.meas_names(spec)
     for v in range(nv):
         over = {p["name"]: pick(params, p["name"], v) for p in spec["params"]}
-        if case["plan"] == "fix_change":
+        if case["plan"] in ("fix_change", "fix_both"):
             over["gdrift"] = pick(params, "gdrift", v)
         sv = _spec_for_variant(spec, v, over)
         lv = {nm: pick(levels, nm, v) for nm in names}
